@@ -939,7 +939,7 @@ class ReachingDefs:
                     deref_write = any(e["k"] == "deref" for e in s["place"]["p"]) and p == ()
                     self._add((bb, i), l, p, "assign", s["rv"], not deref_write)
                     rv = s["rv"]
-                    if (rv["k"] == "ref" and rv.get("mut")) or rv["k"] == "rawptr":
+                    if (rv["k"] == "ref" and rv.get("mut")) or (rv["k"] == "rawptr" and rv.get("mut", True)):
                         l2, p2 = norm_place(rv["place"])
                         if p2 != () or not any(e["k"] == "deref" for e in rv["place"]["p"]):
                             # `&mut L` / `&mut (*L).field` handed to a callee: the place holds an updated value afterwards
@@ -1166,6 +1166,7 @@ class Terms:
                 sub_paths.add(dpath)
             else:
                 whole_sites.append(s)
+                self._query_point = (bb, idx)
                 terms.add(self._site_term(s, local, path, depth + 1))
         for dp in sorted(sub_paths, key=str):
             updates.add((dp[len(path):], self.place(local, dp, bb, idx, depth + 1)))
@@ -1311,6 +1312,22 @@ class Terms:
                 if idxs:
                     others = tuple(self.operand(a, cb, "t", depth + 1) for j, a in enumerate(t["args"]) if j not in idxs)
                     return ("upd", self.call_name(t), prev, others)
+            if t and t["k"] == "goto" and t.get("inlined_call") and t.get("cont") is not None and any(
+                    s2["k"] == "assign" and s2["rv"]["k"] == "use" and (s2["rv"]["op"].get("place") or {}).get("l") in aliases for s2 in self.body.blocks[cb]["stmts"]):
+                # the reference was handed to a helper whose body is inlined here (rules/inline.py): the object is what the
+                # helper's copy of the reference denotes when the helper is done — references are transparent in this
+                # model, so that is the value of the one alias the helper wrote through
+                written = self._written_aliases(aliases, cb)
+                if not written:
+                    return prev
+                if len(written) == 1:
+                    # (read at the point of the query: the helper's copy is not written after the helper is done, and the
+                    # helper's continuation block may exist in several copies after return threading)
+                    qb, qi = getattr(self, "_query_point", None) or (t["cont"], 0)
+                    if qb == site[0] or qb not in self.body.reachable(t["cont"], follow_yield_drop=False) and qb != t["cont"]:
+                        qb, qi = t["cont"], 0
+                    return self.place(written[0], (), qb, qi, depth + 1)
+                return ("upd", "?", prev, ())
             # two-phase borrows: the reference is taken, the other arguments are evaluated (possibly by calls in
             # following blocks), then the reference is consumed — follow the straight-line continuation
             nxt = [sc for sc in self.body.succs(cb) if not self.body.blocks[sc]["cleanup"]]
@@ -1326,6 +1343,38 @@ class Terms:
             t = blk2["term"]
         # the borrow is consumed elsewhere (e.g. by an awaited call): the object is the same, its contents may differ
         return ("upd", "?", prev, ())
+
+    def _written_aliases(self, aliases, start_bb):
+        """copies of a reference made in the blocks reachable from start_bb, and among all of them those that are written
+        through (a member assigned, or re-borrowed mutably)"""
+        al = set(aliases)
+        reach = self.body.reachable(start_bb, follow_yield_drop=False)
+        changed = True
+        while changed:
+            changed = False
+            for b in reach:
+                blk = self.body.blocks[b]
+                if blk["cleanup"]:
+                    continue
+                for s2 in blk["stmts"]:
+                    if s2["k"] != "assign" or s2["rv"]["k"] not in ("ref", "use", "rawptr", "cast", "copyforderef"):
+                        continue
+                    src = s2["rv"].get("place") or (s2["rv"].get("op") or {}).get("place")
+                    if not src or src["l"] not in al or any(e["k"] != "deref" for e in src["p"]):
+                        continue
+                    dst = s2["place"]
+                    if dst["p"] or dst["l"] in al:
+                        continue
+                    al.add(dst["l"])
+                    changed = True
+        out = []
+        for a in sorted(al):
+            for site in self.rd.by_local.get(a, []):
+                l_, p_, kind_, payload_, strong_ = self.rd.sites[site]
+                if site[0] in reach and ((kind_ == "assign" and p_ != ()) or (kind_ == "mutref") or (kind_ == "call" and p_ != ())):
+                    out.append(a)
+                    break
+        return out
 
     def _rvalue(self, rv, bb, idx, depth):
         k = rv["k"]
@@ -1848,23 +1897,25 @@ def emptiness_test(t, labs):
         return a[2][0], pol
     if a[0] == "binop":
         op, x, y = a[1], a[2], a[3]
-        is_len = lambda z: isinstance(z, tuple) and len(z) == 4 and z[0] == "call" and z[1].endswith("::len")
+        # `len()` as a call, or as the pointer metadata a slice pattern (`[]`, `[first, ..]`) reads
+        is_len = lambda z: isinstance(z, tuple) and ((len(z) == 4 and z[0] == "call" and z[1].endswith("::len")) or (len(z) == 3 and z[0] == "unop" and z[1] == "PtrMetadata"))
+        of = lambda z: z[2][0] if z[0] == "call" else z[2]
         zero = lambda z: z == ("const", 0)
         one = lambda z: z == ("const", 1)
         if is_len(x) and zero(y):
             if op == "Eq" or op == "Le":
-                return x[2][0], pol
+                return of(x), pol
             if op in ("Ne", "Gt"):
-                return x[2][0], not pol
+                return of(x), not pol
         if is_len(y) and zero(x):
             if op == "Eq" or op == "Ge":
-                return y[2][0], pol
+                return of(y), pol
             if op in ("Ne", "Lt"):
-                return y[2][0], not pol
+                return of(y), not pol
         if is_len(x) and one(y) and op == "Ge":
-            return x[2][0], not pol
+            return of(x), not pol
         if is_len(x) and one(y) and op == "Lt":
-            return x[2][0], pol
+            return of(x), pol
     return None
 
 
